@@ -107,6 +107,10 @@ type Decl struct {
 	RN     []string `json:"rn,omitempty"`     // reserved names
 	CS     bool     `json:"cs,omitempty"`     // client streaming
 	SS     bool     `json:"ss,omitempty"`     // server streaming
+	Alias  bool     `json:"alias,omitempty"`  // enum: option allow_alias = true;
+	Dep    bool     `json:"dep,omitempty"`    // field / extension: [deprecated = true]
+	Grp    bool     `json:"grp,omitempty"`    // message: it is the message of a group (rendered by its field)
+	Gof    int      `json:"gof,omitempty"`    // field: it is the field of the group whose message is declaration Gof
 }
 
 type Import struct {
